@@ -20,7 +20,8 @@ emphasis  (also `~~` strikethrough, with `~` excluded next to every run)
           text inline; the byte before the opening run is a line start, a space or ASCII
           punctuation other than `*`/`_`, and so is the byte after the closing run: openers
           cannot close, closers cannot open, runs never touch (no rule-of-three cases).
-links     a reference-spelled link `[text][label]` has a label of 1..20 letters/digits equal to the
+links     a reference-spelled link `[text][label]` has a label of 2..20 letters/digits (a one-letter
+          label `x` would turn a task marker `[x]` into a link) equal to the
           label of its definition up to letter case, and the first definition written for that
           label (leading block, then trailing block, then the shadowed extras) carries exactly
           this link's destination and title;
@@ -40,9 +41,28 @@ blocks    heading level 1..6 with non-empty content; setext heading level 1 or 2
           block quotes and list items non-empty; adjacent lists differ in bullet character or
           in delimiter; in a tight item only the first block may be a paragraph and a later
           ordered list starts at 1 and two block quotes are never adjacent; a loose list has a
-          blank line that the parser registers: some block other than the very last one does not
+          blank line that the parser registers (tables: see below): some block other than the very last one does not
           end in a thematic break (known finding: comrak ignores a blank line after a thematic
           break when it decides tightness); numbers below 10^9.
+tables    at least one column; the header and every body row have exactly one cell per column; a
+          cell is one line of inline content without breaks, not starting or ending with a space,
+          possibly empty; `|` appears only as `\|` in text outside link text / image descriptions
+          (or as a character reference), never in a code span; in a tight item only as the first
+          block (the header row is a paragraph line until the delimiter row arrives); a tight
+          list holds a table without body rows only as the very last block of its last item
+          (known finding: comrak takes the end of the delimiter row for a blank line).
+tasks     `[ ]`, `[x]` or `[X]` and one space before the first paragraph of a list item (the item
+          must start with a paragraph); an item without marker must not start with text that reads
+          `[ ]`/`[x]`/`[X]` after unescaping (known finding: comrak takes `\[x\] a` for a task).
+notes     a reference `[^name]` (name of 1..8 letters/digits, spelled exactly as in the definition)
+          stands outside link text and image descriptions, not after `!`, not before `[`, `(`, `:`;
+          its two numbers are the ones comrak's footnote pass assigns (`fnCheck`); every referenced
+          name has exactly one definition `[^name]: text` (one line of inline content without
+          footnote references) written after everything else, in any order; names differ in more
+          than letter case; extra definitions nothing refers to may follow.
+html      start condition 6 with a lower-case tag name out of twelve; every line non-empty, printable
+          ASCII, not starting with a space; in a tight item only as the last block (only a blank
+          line ends the block).
 -/
 import Comrak.Canon.Safe
 namespace Comrak.Canon
@@ -85,7 +105,7 @@ def maxTicks (cur best : Nat) : Bytes → Nat
 def okOutside (c : UInt8) : Bool := c == 0x0A || c == 0x20 || (isPunct c && c != 0x2A && c != 0x5F && c != 0x7E)
 
 /-- Reference labels: letters and digits (case variants allowed between use and definition). -/
-def labelOk (l : Bytes) : Bool := !l.isEmpty && l.length ≤ 20 && l.all isAsciiAlnum
+def labelOk (l : Bytes) : Bool := 2 ≤ l.length && l.length ≤ 20 && l.all isAsciiAlnum
 
 def lowerB (l : Bytes) : Bytes := l.map toLowerAscii
 
@@ -105,6 +125,7 @@ def Inl.firstB : Inl → UInt8
   | .hard true => 0x5C
   | .hard false => 0x20
   | .soft => 0x0A
+  | .fnref .. => 0x5B
 
 def Inl.lastB : Inl → UInt8
   | .text as => (atomsSrc as).getLastD 0
@@ -118,6 +139,10 @@ def Inl.lastB : Inl → UInt8
   | .autolink .. => 0x3E
   | .hard _ => 0x0A
   | .soft => 0x0A
+  | .fnref .. => 0x5D
+
+/-- Footnote names: 1..8 letters and digits. -/
+def fnNameOk (l : Bytes) : Bool := !l.isEmpty && l.length ≤ 8 && l.all isAsciiAlnum
 
 def Inl.isText : Inl → Bool | .text _ => true | _ => false
 
@@ -178,6 +203,8 @@ def Inl.wf (inLink inBr breaks : Bool) (prev nxt : UInt8) (first last : Bool) (p
   | .hard bs => breaks && !first && !last && prev != 0x0A && prev != 0x20 && nxt != 0x0A && nxt != 0x20 &&
     (bs || !inBr || prevClass == 1)
   | .soft => breaks && !first && !last && prev != 0x0A && prev != 0x20 && nxt != 0x0A && nxt != 0x20
+  | .fnref name rn ix =>
+    !inBr && fnNameOk name && 1 ≤ rn && 1 ≤ ix && prev != 0x21 && nxt != 0x5B && nxt != 0x28 && nxt != 0x3A
 def Inls.wf (inLink inBr breaks : Bool) (prev after : UInt8) (first : Bool) (prevClass : Nat) : Inls → Bool
   | .nil => true
   | .cons i r =>
@@ -185,6 +212,30 @@ def Inls.wf (inLink inBr breaks : Bool) (prev after : UInt8) (first : Bool) (pre
     i.wf inLink inBr breaks prev (r.firstB after) first r.isNil prevClass &&
     r.wf inLink inBr breaks i.lastB after false i.textClass
 end
+
+/-! ## Table cells -/
+
+mutual
+/-- Inside a table cell the row splitter sees the bytes before the inline parser does: a code span
+    must not contain `|` (the splitter would end the cell there, and `\|` would lose its
+    backslash), and inside link text / image descriptions, where comrak keeps one text node per
+    escape, `\|` is not used (the splitter has already turned it into a plain `|`). -/
+def Inl.cellOk (inBr : Bool) : Inl → Bool
+  | .text as => !(inBr && as.contains (.esc 0x7C))
+  | .code _ s => !s.contains 0x7C
+  | .emph _ cs => cs.cellOk inBr
+  | .strong _ cs => cs.cellOk inBr
+  | .strike cs => cs.cellOk inBr
+  | .link _ _ _ _ cs => cs.cellOk true
+  | .image _ _ _ cs => cs.cellOk true
+  | _ => true
+def Inls.cellOk (inBr : Bool) : Inls → Bool
+  | .nil => true
+  | .cons i r => i.cellOk inBr && r.cellOk inBr
+end
+
+/-- A cell: one line of inline content (no breaks) between `| ` and ` |`; may be empty. -/
+def cellWf (c : Inls) : Bool := c.wf false false false 0x20 0x20 true 0 && c.cellOk false
 
 /-! ## Blocks -/
 
@@ -205,6 +256,51 @@ def blankLine (l : Bytes) : Bool := l.all (fun b => b == 0x20)
 
 def infoChar (c : UInt8) : Bool := isAsciiAlnum c || [0x2D, 0x2B, 0x2E, 0x23, 0x5F].contains c
 
+/-- Tag names of HTML-block start condition 6 the class uses. -/
+def html6Tags : List Bytes :=
+  [ [0x64,0x69,0x76], [0x70], [0x74,0x61,0x62,0x6C,0x65], [0x75,0x6C], [0x73,0x65,0x63,0x74,0x69,0x6F,0x6E],
+    [0x68,0x31], [0x62,0x6C,0x6F,0x63,0x6B,0x71,0x75,0x6F,0x74,0x65], [0x64,0x65,0x74,0x61,0x69,0x6C,0x73],
+    [0x66,0x6F,0x72,0x6D], [0x6C,0x69], [0x74,0x64], [0x68,0x72] ]
+  -- div p table ul section h1 blockquote details form li td hr
+
+/-- CommonMark 4.6, start condition 6: `<` or `</`, a tag name of the list, then a space, `>`,
+    `/>` or the end of the line. -/
+def html6Start (l : Bytes) : Bool :=
+  match l with
+  | 0x3C :: r =>
+    let r := if r.head? == some 0x2F then r.tail else r
+    html6Tags.any fun t =>
+      t.isPrefixOf r &&
+        (match r.drop t.length with
+         | [] => true
+         | c :: r2 => c == 0x20 || c == 0x3E || (c == 0x2F && r2.head? == some 0x3E))
+  | _ => false
+
+/-- The text of a list item's first paragraph begins like a task marker (`[ ]`, `[x]`, `[X]`
+    followed by a space or by the end of the text node): comrak looks for the marker in the parsed
+    text, so brackets written as `\[x\]` or `&#91;x]` are taken for one too (known finding). -/
+def taskMatch (v : Bytes) : Bool :=
+  match v with
+  | 0x5B :: c :: 0x5D :: rest => (c == 0x20 || c == 0x78 || c == 0x58) && (rest.isEmpty || rest.head? == some 0x20)
+  | _ => false
+
+def Blks.taskLike : Blks → Bool
+  | .cons (.para (.cons (.text as) _)) _ => taskMatch (atomsVal as)
+  | _ => false
+
+def Blks.startsPara : Blks → Bool
+  | .cons (.para _) _ => true
+  | _ => false
+
+def Blk.isHtml : Blk → Bool | .htmlb _ => true | _ => false
+
+/-- A task marker needs a paragraph to stand in; an item without one must not look like it had one. -/
+def Task.ok (t : Task) (bs : Blks) : Bool :=
+  match t with
+  | .no => !bs.taskLike
+  | .unchecked => bs.startsPara
+  | .checked c => (c == 0x78 || c == 0x58) && bs.startsPara
+
 /-- A code line that could be taken for the closing fence. -/
 def closesFence (c : UInt8) (l : Bytes) : Bool :=
   match l.dropWhile (fun b => b == 0x20) with
@@ -224,8 +320,8 @@ def Blks.hrEnding : Blks → Bool
   | .cons _ r => r.hrEnding
 def Items.hrEnding : Items → Bool
   | .nil => false
-  | .cons bs .nil => bs.hrEnding
-  | .cons _ r => r.hrEnding
+  | .cons _ bs .nil => bs.hrEnding
+  | .cons _ _ r => r.hrEnding
 end
 
 /-- Some block other than the very last one does not end in a thematic break. -/
@@ -237,7 +333,36 @@ def Blks.witness (lastItem : Bool) : Blks → Bool
     them must be registered by the parser. -/
 def Items.witness : Items → Bool
   | .nil => false
-  | .cons bs r => bs.witness r.isNil || r.witness
+  | .cons _ bs r => bs.witness r.isNil || r.witness
+
+mutual
+/-- The last line of the block is the delimiter row of a table without body rows: comrak consumes
+    the rest of that line and then takes the (now empty) remainder for a blank line, so the table
+    counts as "followed by a blank line" when list tightness is decided (known finding). -/
+def Blk.tblEnding : Blk → Bool
+  | .table _ _ rows => rows.isEmpty
+  | .list _ items => items.tblEnding
+  | _ => false
+def Blks.tblEnding : Blks → Bool
+  | .nil => false
+  | .cons b .nil => b.tblEnding
+  | .cons _ r => r.tblEnding
+def Items.tblEnding : Items → Bool
+  | .nil => false
+  | .cons _ bs .nil => bs.tblEnding
+  | .cons _ _ r => r.tblEnding
+end
+
+/-- Some block other than the very last one ends in a header-only table. -/
+def Blks.trap (lastItem : Bool) : Blks → Bool
+  | .nil => false
+  | .cons b r => (!(lastItem && r.isNil) && b.tblEnding) || r.trap lastItem
+
+/-- A tight list must not contain, anywhere but at its very end, a block that ends in a header-only
+    table: comrak would make the list loose. -/
+def Items.trap : Items → Bool
+  | .nil => false
+  | .cons _ bs r => bs.trap r.isNil || r.trap
 
 mutual
 /-- `tight`: direct child of an item of a tight list; `bullet`: bullet character of the item this
@@ -263,15 +388,87 @@ def Blk.wf (tight : Bool) (bullet : UInt8) (idx : Nat) (prev : Prev) : Blk → B
     (match prev with | .list p => !sameList p m | _ => true) &&
     (if m.ordered then m.start + items.length ≤ 999999999 && !(tight && idx != 0 && m.start != 1)
      else m.bullet == 0x2D || m.bullet == 0x2B || m.bullet == 0x2A) &&
-    !items.isNil && (m.tight || items.witness) &&
+    !items.isNil && (m.tight || items.witness) && !(m.tight && items.trap) &&
     items.wf m
+  | .htmlb ls =>
+    (match ls.head? with | some l => html6Start l | none => false) &&
+    ls.all (fun l => !l.isEmpty && l.all (fun b => 0x20 ≤ b && b ≤ 0x7E) && l.head? != some 0x20)
+  | .table al h rows =>
+    !(tight && idx != 0) && !al.isEmpty && h.length == al.length && rows.all (fun r => r.length == al.length) &&
+    h.all cellWf && rows.all (fun r => r.all cellWf)
 def Blks.wf (tight : Bool) (bullet : UInt8) (idx : Nat) (prev : Prev) : Blks → Bool
   | .nil => true
-  | .cons b r => b.wf tight bullet idx prev && r.wf tight bullet (idx + 1) b.asPrev
+  | .cons b r =>
+    b.wf tight bullet idx prev && !(tight && b.isHtml && !r.isNil) && r.wf tight bullet (idx + 1) b.asPrev
 def Items.wf (m : Marker) : Items → Bool
   | .nil => true
-  | .cons bs r => !bs.isNil && bs.wf m.tight (if m.ordered then 0 else m.bullet) 0 .none && r.wf m
+  | .cons t bs r => !bs.isNil && t.ok bs && bs.wf m.tight (if m.ordered then 0 else m.bullet) 0 .none && r.wf m
 end
+
+/-! ## Footnotes -/
+
+mutual
+/-- The footnote references of inline content, in document order: (name, refNum, ix). -/
+def Inl.fnrefs : Inl → List (Bytes × Nat × Nat)
+  | .fnref n r i => [(n, r, i)]
+  | .emph _ cs => cs.fnrefs
+  | .strong _ cs => cs.fnrefs
+  | .strike cs => cs.fnrefs
+  | .link _ _ _ _ cs => cs.fnrefs
+  | .image _ _ _ cs => cs.fnrefs
+  | _ => []
+def Inls.fnrefs : Inls → List (Bytes × Nat × Nat)
+  | .nil => []
+  | .cons i r => i.fnrefs ++ r.fnrefs
+end
+
+mutual
+def Blk.fnrefs : Blk → List (Bytes × Nat × Nat)
+  | .para is => is.fnrefs
+  | .heading _ is => is.fnrefs
+  | .setext _ _ is => is.fnrefs
+  | .quote bs => bs.fnrefs
+  | .list _ items => items.fnrefs
+  | .table _ h rows => h.flatMap Inls.fnrefs ++ rows.flatMap fun r => r.flatMap Inls.fnrefs
+  | _ => []
+def Blks.fnrefs : Blks → List (Bytes × Nat × Nat)
+  | .nil => []
+  | .cons b r => b.fnrefs ++ r.fnrefs
+def Items.fnrefs : Items → List (Bytes × Nat × Nat)
+  | .nil => []
+  | .cons _ bs r => bs.fnrefs ++ r.fnrefs
+end
+
+/-- comrak's numbering: walking the references in document order, a name seen for the first time
+    gets the next note number and reference number 1; a name seen before keeps its note number
+    and counts up.  `seen`: the notes so far with their reference counts.  Returns the final
+    (name, total) list if every reference carries exactly these numbers. -/
+def fnCheck : List (Bytes × Nat) → List (Bytes × Nat × Nat) → Option (List (Bytes × Nat))
+  | seen, [] => some seen
+  | seen, (n, rn, ix) :: rest =>
+    match seen.findIdx? (fun p => p.1 == n) with
+    | some i =>
+      let c := (seen.getD i ([], 0)).2
+      if ix == i + 1 && rn == c + 1 then fnCheck (seen.set i (n, c + 1)) rest else none
+    | none => if ix == seen.length + 1 && rn == 1 then fnCheck (seen ++ [(n, 1)]) rest else none
+
+/-- A footnote definition `[^name]: text`: one line of inline content (it starts a paragraph inside
+    the definition, so it obeys the rules of a paragraph start), no footnote references inside. -/
+def Note.wf (n : Note) : Bool :=
+  fnNameOk n.name && !n.body.isNil && n.body.wf false false false 0x0A 0x0A true 0 && n.body.fnrefs.isEmpty
+
+def distinctB : List Bytes → Bool
+  | [] => true
+  | a :: r => !r.contains a && distinctB r
+
+/-- The notes are exactly the referenced names in the order of first reference with their
+    reference counts; names are distinct up to letter case (comrak folds case when it looks a
+    name up, and keeps the spelling of the definition); the writer's order is a permutation. -/
+def Doc.notesOk (d : Doc) : Bool :=
+  fnCheck [] d.blocks.fnrefs == some (d.notes.map fun n => (n.name, n.total)) &&
+  d.notes.all Note.wf && d.unused.all Note.wf &&
+  distinctB ((d.notes ++ d.unused).map fun n => lowerB n.name) &&
+  d.noteOrder.length == d.notes.length && (List.range d.notes.length).all (fun i => d.noteOrder.contains i)
 
 def RefDef.ok (d : RefDef) : Bool := labelOk d.label && destOk d.url d.angle && titleOk d.title
 
@@ -279,12 +476,12 @@ def RefDef.ok (d : RefDef) : Bool := labelOk d.label && destOk d.url d.angle && 
     the writer emits, to its own destination and title. -/
 def Doc.refsOk (d : Doc) : Bool :=
   d.shadow.all RefDef.ok &&
-  d.blocks.defs.all fun u =>
+  d.useDefs.all fun u =>
     match resolve d.allDefs u.useLabel with
     | some x => x.url == u.url && x.title == u.title
     | none => false
 
-def Doc.wf (d : Doc) : Bool := d.blocks.wf false 0 0 .none && d.refsOk
+def Doc.wf (d : Doc) : Bool := d.blocks.wf false 0 0 .none && d.refsOk && d.notesOk
 
 /-- The documents the class consists of. -/
 def Doc.ok (d : Doc) : Bool := d.wf && d.safe
